@@ -1,7 +1,7 @@
 #!/bin/bash
 # usage: tools_runall.sh [quick|thorough] [seed]   - runs every registered check, prints one line each
 tier=${1:-quick}; seed=${2:-0}
-cd /verif
+cd "$(dirname "$(readlink -f "$0")")"
 for id in $(python3 -c "import json; print(' '.join(c['property_id'] for c in json.load(open('MANIFEST.json'))['checks']))"); do
   s=$(date +%s)
   out=$(VERIF_SEED=$seed timeout 7200 /venv/bin/python run.py $id --tier $tier 2>&1); rc=$?
